@@ -45,7 +45,7 @@ def format_sint(x: SInt, spec: str) -> str:
         # out of the field's range: Python would print a sign or extra digits.  Continue with one concrete witness
         # of this (already suspicious) region; the exploration of the region is then not exhaustive.
         ex = cur()
-        v = ex.concretize(x.e)
+        v = ex.pick(x.e, f"hex field overflow '{spec}'")
         ex.path_notes.append(f"hex field overflow: value {v} rendered with '{spec}'")
         return format(v, spec)
     # decimal or other rendering (only used in log/exception messages): one opaque placeholder, no fork
